@@ -223,6 +223,8 @@ def check_c01(rec, names, Model, symbols, seed, tier, light=False):
                 got = run_generated(Model, all_names, span, t, table)
             except ZeroDivisionError:
                 continue  # integer literal division by a literal zero etc.: Python semantics on both sides
+            except (IndexError, KeyError, AttributeError, NameError, TypeError) as e:
+                raise Mis(f'c01-generated-code-raised:{type(e).__name__}', error=str(e)[:200], t=t, L=L)
             want = run_reference(rec, names, span, t, table)
             n_exec += 1
             bad = cmp_events(got, want)
